@@ -16,12 +16,41 @@ from workflows.runtime.types.ticks import TickStepResult
 
 PID = "C31"
 
+def wf_wait_retry() -> Any:
+    """three wake-ups pending at once, scheduled in the order: run timeout, a waiter's own (2000 s) timeout, a 1 s retry
+    delay.  Nothing ever answers the wait, so only the run timeout ends the run."""
+    from vmc.events import A, B, Resp
+    from workflows.events import StartEvent
+    from workflows.retry_policy import retry_policy, stop_after_attempt, wait_fixed
+
+    async def start(self, ctx, ev, inv):  # noqa: ANN001
+        ctx.send_event(A(uid=1))
+        await gate("start")
+        return B(uid=2)
+
+    async def ask(self, ctx, ev, inv):  # noqa: ANN001
+        r = await ctx.wait_for_event(Resp, waiter_id="w")
+        return StopEvent(result=f"answered:{r.uid}")
+
+    async def flaky(self, ctx, ev, inv):  # noqa: ANN001
+        await gate(f"flaky{inv.retry.retry_number}")
+        if inv.retry.retry_number == 0:
+            raise RuntimeError("once")
+        return None
+
+    return make_workflow("WaitRetry", [
+        make_step("start", [StartEvent], [A, B], start),
+        make_step("ask", [A], [StopEvent], ask),
+        make_step("flaky", [B], [None], flaky, retry_policy=retry_policy(wait=wait_fixed(1), stop=stop_after_attempt(3)))])
+
+
 FAMILIES = {
     "chain2": (lambda: wf_chain(2), "chain2"),
     "chain3": (lambda: wf_chain(3), "chain3"),
     "fan(2,2)": (lambda: wf_fan(2, 2), [0, 1]),
     "fan(3,2)": (lambda: wf_fan(3, 2), [0, 1, 2]),
     "retry_delay": (lambda: wf_retry_chain(2.0), "ok@2"),
+    "wait_retry": (wf_wait_retry, None),
 }
 
 
@@ -42,6 +71,11 @@ def execute(ex: Execution, family: str, mode: str) -> tuple[Any, list[Any]]:
         def on_tick(hh: Any, tick: Any, adapter: Any) -> None:
             t = getattr(tick, "type", "")
             if t == "timeout":
+                import time as _t
+
+                rec = hh.scheduled_due.get(id(tick))
+                if rec is not None and rec[1] is tick:
+                    marks["timeout_late_by"] = _t.time() - rec[0]
                 # steps with live bodies at the moment the timeout is processed
                 marks["live_at_timeout"] = sorted(n for n, lst in hh.live.items() if lst)
                 marks["stop_processed_before_timeout"] = marks.get("stop_processed", False)
@@ -72,6 +106,9 @@ def execute(ex: Execution, family: str, mode: str) -> tuple[Any, list[Any]]:
                 if sorted(tev[0].active_steps) != want:
                     v.append(("active_steps_wrong", w, f"WorkflowTimedOutEvent.active_steps={sorted(tev[0].active_steps)}, "
                                                        f"steps with live bodies: {want}"))
+            if marks.get("timeout_late_by", 0.0) > 1e-6:
+                v.append(("run_timeout_fires_late", w, f"the run timeout was due {marks['timeout_late_by']:.3f}s (virtual) before it was acted on: "
+                                                        "the loop slept past it"))
             if marks.get("stop_processed_before_timeout"):
                 v.append(("finished_run_timed_out", w, "the StopEvent result tick was processed before the timeout tick, "
                                                        "yet the run failed with WorkflowTimeoutError"))
@@ -137,9 +174,11 @@ def execute(ex: Execution, family: str, mode: str) -> tuple[Any, list[Any]]:
 def programs(tier: str) -> list[Program]:
     q = tier == "quick"
     ps = []
-    fams = ["chain2", "fan(2,2)", "retry_delay"] + ([] if q else ["chain3", "fan(3,2)"])
+    fams = ["chain2", "fan(2,2)", "retry_delay", "wait_retry"] + ([] if q else ["chain3", "fan(3,2)"])
     for fam in fams:
         for mode in ("timeout", "cancel", "cancel_resume", "cancel_resume_x2"):
+            if fam == "wait_retry" and mode != "timeout":
+                continue
             if mode == "cancel_resume_x2" and fam == "retry_delay":
                 continue  # (the delayed-retry finding is already shown by the single cancel)
             ps.append(Program(f"{mode}/{fam}", {"family": fam, "mode": mode},
@@ -150,6 +189,7 @@ def programs(tier: str) -> list[Program]:
 
 RULE = ("timeout (timer firing) or cancel_run arriving at every quiescent point of chain, fan-out and delayed-retry "
         "workflows x all step completion orders; WorkflowTimedOutEvent.active_steps vs steps with live bodies, "
+        "the timeout tick acted on at the virtual instant it was scheduled for (also with a waiter timeout and a retry delay pending), "
         "no timeout after a processed StopEvent, WorkflowCancelledEvent then WorkflowCancelledByUser, no body "
         "entered after the cancel tick, ctx.to_dict() works and the resumed run completes with the reference "
         "result - also when the resumed run is itself cancelled at any point and resumed a second time; non-trivial = at least one schedule deviation")
